@@ -152,6 +152,68 @@ def r_choice(ctx):
                                           "accepted although no alternative accepts it" % (which, dname))
 
 
+def r_groupchoice(ctx, rid="C14.groupchoice"):
+    ctx.rule(rid, "visit_group_rule and visit_type_groupname_entry (both validators): a named group is its base definition plus its `//=` "
+                  "alternatives; over 0-2 alternatives with every fail/succeed pattern of (alternatives..., base) and 0 or 2 prior errors: "
+                  "prior errors intact; no error left iff some definition accepts — in particular the base definition still counts when "
+                  "alternatives exist, and an accepting alternative clears the errors of the ones tried before it", floor=40)
+    f = ctx.facts
+    for which in ("json", "cbor"):
+        file, ty = vt.VIS[which]
+        for method, argname in (("visit_group_rule", "gr"), ("visit_type_groupname_entry", "entry")):
+            for n_alt in (0, 1, 2):
+                for pattern in itertools.product((True, False), repeat=n_alt + 1):       # alternatives in order, then the base definition
+                    for pre in (0, 2):
+                        key = "%s|%s|alts=%s|base=%s|pre=%d" % (which, method, "".join("S" if p else "F" for p in pattern[:-1]) or "-", "S" if pattern[-1] else "F", pre)
+                        docv = ("enum", "Value::Object", [OPAQUE]) if which == "json" else ("enum", "Value::Map", [OPAQUE])
+                        selfo = self_with_errors(which, docv, pre)
+                        st = selfo[2]["state"][2]
+                        st.update({"generic_rules": MutList(), "eval_generic_rule": ("None",), "is_multi_group_choice": False, "type_group_name_entry": ("None",)})
+                        alts = MutList([("alt", i) for i in range(n_alt)])
+                        base = ("base",)
+
+                        def outcome(recv, which_def, pattern=pattern, n_alt=n_alt):
+                            i = n_alt if which_def == ("base",) else which_def[1]
+                            if not pattern[i]:
+                                recv[2]["errors"].append(("def-error", i))
+                            return ("Ok", ("tuple", []))
+
+                        def visit_group_entry(run, it, node, recv):
+                            a = it.eval(node["a"][0])
+                            if a == base or (isinstance(a, tuple) and a[:1] == ("alt",)):
+                                return outcome(recv, a)
+                            raise Unknown("visit_group_entry on %r" % (a,))
+
+                        def walk_entry(run, it, node, a):
+                            return outcome(a[0], base)
+                        if method == "visit_group_rule":
+                            arg = ("enum", "GroupRule", {"name": ("enum", "Identifier", {"ident": ("str", "g")}), "generic_params": ("None",), "entry": base})
+                        else:
+                            arg = ("enum", "TypeGroupnameEntry", {"name": ("enum", "Identifier", {"ident": ("str", "g")}), "generic_args": ("None",), "occur": ("None",)})
+                        scripts = {"visit_group_entry": visit_group_entry, "walk_type_groupname_entry": walk_entry,
+                                   "group_choice_alternates_from_ident": lambda r, it, node, a: alts}
+                        run = vt.ObjRun(f, file, ty, scripts=scripts)
+                        try:
+                            run.call(method, selfo, {argname: arg})
+                        except Unknown as e:
+                            ctx.incomplete_msg(rid, "%s: %s" % (key, e))
+                            continue
+                        fi = run.fn(method)
+                        errs = list(selfo[2]["errors"])
+                        added = errs[pre:]
+                        ctx.site(rid, key, file, fi.line, {"errors_after": [repr(e) for e in errs]})
+                        short = "%s|%s" % (which, method)
+                        if errs[:pre] != [("pre", i) for i in range(pre)]:
+                            ctx.violation(rid, short + "|prefix", file, fi.line, "%s %s alters errors recorded before it: %r (%s)" % (which, method, errs, key))
+                        elif any(pattern) and added:
+                            what = "the base definition accepts" if pattern[-1] and not any(pattern[:-1]) else "an alternative accepts"
+                            ctx.violation(rid, short + ("|base-leak" if pattern[-1] and not any(pattern[:-1]) else "|leak"), file, fi.line,
+                                          "%s %s (%s): %s but errors %r of the definitions tried before it survive: `g = (a: 1)`, `g //= (b: 2)` "
+                                          "rejects what one of its definitions accepts" % (which, method, key, what, added))
+                        elif not any(pattern) and not added:
+                            ctx.violation(rid, short + "|lost", file, fi.line, "%s %s (%s): every definition failed but no error is left" % (which, method, key))
+
+
 def r_named(ctx):
     rid = "C14.named"
     ctx.rule(rid, "visit_named_type_choice (both validators): over 1-3 contributing definitions (base + /= increments) with every fail/succeed "
@@ -282,6 +344,7 @@ def r_pure(ctx):
 
 def run(ctx):
     ctx.guarded("C14.pointer", r_pointer)
+    ctx.guarded("C14.groupchoice", r_groupchoice)
     ctx.guarded("C14.result.json", lambda c: cv.root_rule(c, "C14j", "json"))
     ctx.guarded("C14.result.cbor", lambda c: cv.root_rule(c, "C14c", "cbor"))
     ctx.guarded("C14.kinds", r_kinds)
